@@ -74,6 +74,16 @@ func runC03(c *Ctx) []Obligation {
 			Target: RetNotMatch(0, `^\(`+N+`get\(`+N+`getRightNode\(node, t\), t, key\)#0 \+ \(node\.size - `+N+`getRightNode\(.*\)\.size\)\)$`), Why: "an index found on the right is offset by the size of the left subtree"},
 		{Prop: P, ID: "get.leaf-value-only-on-equal-key", Fn: "(*store/iavl.Node).get", Assume: []Lit{T(`^` + N + `isLeaf\(node\)$`), T(`^eq\(-1, bytes\.Compare\(node\.key, key\)\)$`)}, Target: RetNot(1, "nil"), Why: "a leaf with a smaller key does not yield its value"},
 		{Prop: P, ID: "get.leaf-value-only-on-equal-key.greater", Fn: "(*store/iavl.Node).get", Assume: []Lit{T(`^` + N + `isLeaf\(node\)$`), F(`^eq\(-1, bytes\.Compare\(node\.key, key\)\)$`), T(`^eq\(1, bytes\.Compare\(node\.key, key\)\)$`)}, Target: RetNot(1, "nil"), Why: "a leaf with a greater key does not yield its value"},
+		// range traversal visits in key order: ascending goes left before right, descending right before left
+		{Prop: P, ID: "range.ascending-left-before-right", Fn: "(*store/iavl.Node).traverseInRange", Assume: []Lit{T(`^ascending$`)},
+			From: `^` + N + `traverseInRange\(` + N + `getRightNode\(node, t\), `, Target: CallTo(`^` + N + `traverseInRange\(` + N + `getLeftNode\(node, t\), `), Why: "in ascending order nothing on the left is visited after the right subtree"},
+		{Prop: P, ID: "range.descending-right-before-left", Fn: "(*store/iavl.Node).traverseInRange", Assume: []Lit{F(`^ascending$`)},
+			From: `^` + N + `traverseInRange\(` + N + `getLeftNode\(node, t\), `, Target: CallTo(`^` + N + `traverseInRange\(` + N + `getRightNode\(node, t\), `), Why: "in descending order nothing on the right is visited after the left subtree"},
+		{Prop: P, ID: "range.recursion-keeps-bounds", Fn: "(*store/iavl.Node).traverseInRange",
+			Target: CallTo(`^` + N + `traverseInRange\(`).Except(`^` + N + `traverseInRange\(` + N + `get(Left|Right)Node\(node, t\), t, start, end, ascending, inclusive, \(depth \+ 1\), post, cb\)$`), Why: "children are traversed with the same bounds, direction and callback, one level deeper"},
+		{Prop: P, ID: "range.callback-on-this-node", Fn: "(*store/iavl.Node).traverseInRange",
+			Target: CallTo(`^dyn:cb\(`).Except(`^dyn:cb\(node, depth\)$`), Why: "the callback receives the node being visited"},
+		{Prop: P, ID: "range.nil-node-stops-nothing", Fn: "(*store/iavl.Node).traverseInRange", Assume: []Lit{F(`^nonnil\(node\)$`)}, Target: CallTo(`^dyn:cb\(|traverseInRange\(`), Why: "an empty subtree visits nothing"},
 	}
 	return c.Rows(rows)
 }
